@@ -148,7 +148,7 @@ def s1_design(tier, seed):
 # ----------------------------------------------------------------------------- schedules
 
 def plan(**kw):
-    d = dict(start=0, afterNotary=False, afterBoot=0, pauses=[], cancels=[], losses=[])
+    d = dict(start=0, afterNotary=False, afterBoot=0, pauses=[], cancels=[], losses=[], cancelAfterBoot=[], pauseAfterBoot=[])
     d.update(kw)
     return d
 
@@ -205,6 +205,28 @@ def scenarios(tier, seed):
     def add_lossy(n, losses):
         add(n, "lossy:" + ",".join("m%d:%s#%d" % l for l in losses), lossy(n, losses), budget=2400 + 300 * n)
 
+    # stale signatures: the shared transaction data (lifetime 120 blocks) expires and is re-created by the leader while a
+    # signer that is still needed for the majority has already published its signature for the old data, so that signer has to
+    # REPLACE its record.  kinds: the leader is cancelled right after publishing the data and restarted > 120 blocks later; the
+    # leader is paused for that long; a needed signer starts > 120 blocks after the data appeared (the other needed one signed at
+    # once); members that would make the late/stale one unnecessary are absent until the Notary role exists.
+    def stale(n, kind):
+        ms = [plan() for _ in range(n)]
+        late = 124 + rnd.randrange(0, 25)
+        need = n - ((n - 1) // 2) - 1                 # remote signatures the leader needs
+        for i in range(need + 1, n):                  # members 1..need stay, the rest is absent
+            ms[i]["afterNotary"] = True
+        if kind == "leader-restart":
+            ms[0]["cancelAfterBoot"] = [1, late]
+        elif kind == "leader-pause":
+            ms[0]["pauseAfterBoot"] = [1, late]
+        else:                                         # "late-signer": the last needed member comes late
+            ms[need]["afterBoot"] = late
+        return ms
+
+    def add_stale(n, kind):
+        add(n, "stale:" + kind, stale(n, kind), budget=2000 + 300 * n)
+
     # trap for the witness-order defect: the signatures arrive in descending index order (member 2 at once, member 1 fifteen
     # blocks after the shared data appeared, member 3 absent), so the leader's map holds them in that insertion order and only
     # a lucky rotation of the map iteration (1/8) sorts them
@@ -222,6 +244,7 @@ def scenarios(tier, seed):
             add(n, "notary-only", goal="notary")
         for n in (1, 3):             # one loss each, placed by the seed over the critical submissions
             add_lossy(n, [rnd.choice(critical(n))])
+        add_stale(*rnd.choice([(2, "leader-restart"), (2, "leader-pause"), (3, "leader-restart"), (4, "late-signer")]))
     else:
         for n in range(1, 8):
             add(n, "plain")
@@ -254,6 +277,10 @@ def scenarios(tier, seed):
                 add_lossy(n, [rnd.choice(critical(n))])
             for _ in range(2):                          # two losses in one run
                 add_lossy(n, rnd.sample(critical(n), 2))
+        for n in (2, 3, 4, 5):
+            for kind in ("leader-restart", "leader-pause") + (("late-signer",) if n >= 4 else ()):
+                for _ in range(2 if n <= 4 else 1):
+                    add_stale(n, kind)
         for n in (5, 7):
             add_lossy(n, [(0, "nr:transfer", 1)])
             add_lossy(n, [(n - 1, "tx:deploy", 1)])
